@@ -7,8 +7,8 @@ From Hoot Require Import Base GenLib Gen Gen2.
 Open Scope N_scope.
 
 (** Whatever the closure does: on success the cursor is where the closure left it, on failure it is put back. *)
-Theorem gen_writer_try_write_spec position block :
-  gen_writer_try_write position block =
+Theorem gen_writer_try_write_spec position capacity block :
+  gen_writer_try_write position capacity block =
   Ok (if snd (block position) then fst (block position) else position, snd (block position)).
 Proof.
   unfold gen_writer_try_write, run_block. cbn [bind]. destruct (block position) as [p ok]. cbn [fst snd].
@@ -25,7 +25,7 @@ Definition cursor_write_all (cap n : N) (pos : N) : N * bool :=
     and does not change at all when they do not -- the reading the translator gives every `try_write` in the writer functions. *)
 Theorem gen_writer_try_write_all_or_nothing cap n position :
   position <= cap ->
-  gen_writer_try_write position (cursor_write_all cap n) =
+  gen_writer_try_write position cap (cursor_write_all cap n) =
   Ok (if n <=? cap - position then position + n else position, n <=? cap - position).
 Proof.
   intros _. rewrite gen_writer_try_write_spec. unfold cursor_write_all.
@@ -39,7 +39,7 @@ Definition cursor_write_two (cap n m : N) (pos : N) : N * bool :=
 
 Theorem gen_writer_try_write_two cap n m position :
   position <= cap ->
-  gen_writer_try_write position (cursor_write_two cap n m) =
+  gen_writer_try_write position cap (cursor_write_two cap n m) =
   Ok (if n + m <=? cap - position then position + (n + m) else position, n + m <=? cap - position).
 Proof.
   intros Hp. rewrite gen_writer_try_write_spec. unfold cursor_write_two, cursor_write_all.
